@@ -232,7 +232,7 @@ def run(ctx):
                           'C01-whole@structural_adaptive_ecc', 'C01-whole@saecc', 'C01-whole@protect', 'C01-whole@repair',
                           'C01-header@header_ecc', 'C01-header@hecc',
                           'C01-header-prefill', 'C01-whole-prefill', 'C01-header-prefixout', 'C01-whole-prefixout',
-                          'C01-header-skipext', 'C01-whole-skipext', 'C01-header-hashdmg', 'C01-whole-hashdmg'])
+                          'C01-header-skipext', 'C01-whole-skipext', 'C01-header-hashdmg', 'C01-whole-hashdmg', 'C01-header-symout', 'C01-whole-symout', 'C01-header-bigheader', 'C01-header-sizememo', 'C01-whole-sizememo', 'C01-whole-smallsize', 'C01-header-smallsize'])
     from props import toolrun_lib
     toolrun_lib.stream(ctx)
     from props import selrun_lib
